@@ -227,7 +227,14 @@ class SimCF:
             else:
                 err = ENOENT
             self.events.append(('log_start', bid, err, data[2] if len(data) > 2 else None))
-            return [(h, bytes([3, bid, err]))]
+            out = [(h, bytes([3, bid, err]))]
+            if not err:
+                # a firmware whose logging task fires right after the block was started: first sample directly behind
+                # the acknowledgement (scripted by the check: hook returns (values, timestamp) or None)
+                first = self._hook('log_first_sample', bid)
+                if first is not None:
+                    out.append(self.log_data_packet(bid, first[0], first[1]))
+            return out
         if cmd == 4:
             forced = self._hook('log_err', cmd, bid, self._n('log_stop'))
             if forced:
